@@ -270,7 +270,16 @@ Definition dirs_files (p : npath) : M (list str * list str) :=
   | OutOfFuel => ([], OutOfFuel)
   end.
 
+(* the internal drive @: (InternalDiskDevice) when it is not mounted: _split_pathmask / _get_dirs_files are
+   overridden and touch no host path; there are no bound files in the modelled sessions *)
+Definition internal_unmounted (l : Z) (d : dstate) : bool := (l =? 64) && negb (ds_mounted d).
+
 Definition listdir (l : Z) (d : dstate) (pathmask : str) : M (list str) :=
+  if internal_unmounted l d then
+    let mask := match upper pathmask with [] => [42; 46; 42] | _ :: _ => upper pathmask end in
+    if is_special mask then ret [format_entry true ([], [])]
+    else ret (map (format_entry true) (filter_names [s_dot; s_dotdot] mask))
+  else
   do! '(dir, mask) <-- split_pathmask l d pathmask ;;
   if is_special mask then ret [format_entry true ([], [])]
   else
@@ -295,6 +304,8 @@ Definition kill_select (mask : str) (files : list str) : list str :=
 
 (* no file is open in the modelled histories (the harness closes what it opens) *)
 Definition kill (l : Z) (d : dstate) (pathmask : str) : M unit :=
+  if internal_unmounted l d then failE dn_E_FILE_NOT_FOUND
+  else
   do! '(dir, mask) <-- split_pathmask l d pathmask ;;
   do! '(_, files) <-- dirs_files dir ;;
   match kill_select mask files with
@@ -383,7 +394,10 @@ Definition exec (s : state) (st : stmt) : M (state * list str) :=
           do! out <-- listdir l (get_drive s l) path ;;
           match out with
           | [] => failE dn_E_FILE_NOT_FOUND
-          | _ :: _ => do! _ <-- tell (HStatvfs (l, [])) ;; ret (s, out)
+          | _ :: _ =>
+              (* get_free: statvfs of the mount root; 0 without a host call on the unmounted internal drive *)
+              if internal_unmounted l (get_drive s l) then ret (s, out)
+              else do! _ <-- tell (HStatvfs (l, [])) ;; ret (s, out)
           end
       end
   | SOpen name mode program =>
